@@ -137,6 +137,8 @@ def to_surfaces_macro(key, bound_cond,  # pylint: disable=too-many-arguments
     mcnp_surfs = [(to_surface_mcnp(key, bound_cond, transform_id, type_,
                                    params, transform_parsed), side)
                   for type_, params, side in parts]
+    for surf, _ in mcnp_surfs:
+        surf.from_macrobody = True
     return mcnp_surfs
 
 
